@@ -3,6 +3,7 @@ package mon
 import (
 	"fmt"
 	"os"
+	"os/exec"
 	"path/filepath"
 	"regexp"
 	"strings"
@@ -58,6 +59,26 @@ func checkC19(c *Ctx) error {
 	}
 	want := normGen(checked)
 	bin := w.Bin
+	// "the tool built from the tree" does not say by which Go release: the other toolchain of this machine (newer than the default one,
+	// so files guarded by newer go1.N build constraints are compiled in) has to regenerate the same container
+	if _, err := exec.LookPath("go1.26.8"); err == nil {
+		alt := filepath.Join(w.Dir, "bin", "gontainer-go1.26.8")
+		if err := w.BuildTool(alt, "", "go1.26.8", false); err != nil {
+			c.Set("second_toolchain", "go1.26.8: build failed: "+firstLines(err.Error(), 3))
+		} else {
+			c.Set("second_toolchain", "go1.26.8")
+			out := filepath.Join(w.TempDir("c19t"), "gontainer.go")
+			run := cli.Do(w, alt, nil, w.Repo, out, selfArgs(out, false)...)
+			c.Eval("second-toolchain", true)
+			got, _ := os.ReadFile(out)
+			if run.Res.Exit != 0 {
+				c.Violate("selfcompile-fails-built-by-go1.26.8", "the tool built by go1.26.8 rejects its own configuration\n"+run.Res.Stdout+run.Res.Stderr, nil)
+			} else if normGen(got) != want {
+				c.Violate("differs-when-built-by-another-go-release", "the tool built by go1.26.8 regenerates a container that differs from the checked-in one (modulo the version line)\n"+firstDiff(want, normGen(got)),
+					map[string]string{"regenerated.go": string(got), "checked-in.go": string(checked)})
+			}
+		}
+	}
 	for g := 0; g < gens; g++ {
 		var last []byte
 		for r := 0; r < reps; r++ {
